@@ -169,7 +169,7 @@ class Check:
             if k in seen_keys:
                 continue
             seen_keys.add(k)
-            if len(replay_paths) >= 25:
+            if len(replay_paths) >= 400:
                 break
             path = self._write_replay(v, case, rec)
             replay_paths.append(path)
@@ -305,3 +305,77 @@ def rng_for(seed: int, *parts) -> "random.Random":
 
 def stderr(*a) -> None:
     print(*a, file=sys.stderr)
+
+
+# --------------------------------------------------------------------------------------------------
+# standard flow: run cases, judge records, replay
+# --------------------------------------------------------------------------------------------------
+
+
+def drive(chk: Check, cases: list[Case], judge, per_proc: int = 4, steps="reach", discard_nonok: bool = True):
+    """Run ``cases`` (grouped per hash seed into subprocess batches) and hand every record to ``judge``.
+
+    judge(case, rec) -> list[Viol]; it calls chk.case_ok(...) for every declaration-level case it judged.
+    A run that did not complete is not judged here (that is C01's subject): it is counted as discarded.
+    """
+    by_seed: dict = {}
+    for c in cases:
+        by_seed.setdefault(str(c.hashseed), []).append(c)
+    batches = []
+    for _hs, cs in by_seed.items():
+        batches += runner.chunk(cs, per_proc)
+    results = runner.run_many(batches, steps=steps)
+    pairs = []
+    for batch, recs, mon, err in results:
+        if err:
+            chk.runner_error(err)
+            continue
+        for case, rec in zip(batch, recs, strict=True):
+            chk.note_run(rec, mon)
+            pairs.append((case, rec))
+            if discard_nonok and rec["outcome"] != "ok":
+                e = rec.get("exc") or {}
+                chk.discarded[f"{rec['outcome']}:{e.get('type')}@{e.get('tool_function')}"] += 1
+                continue
+            try:
+                viols = judge(case, rec)
+            except Exception as ex:  # a bug in the oracle is never a verdict on the tool
+                import traceback
+
+                chk.inconc(f"oracle raised on case {case.cid}: {ex!r} {traceback.format_exc()[-600:]}")
+                continue
+            for v in viols:
+                chk.violation(v, case, rec)
+    total = len(cases)
+    nd = sum(chk.discarded.values())
+    if total and nd > max(2, total // 5):
+        chk.inconc(f"{nd} of {total} runs did not complete and could not be judged: {dict(chk.discarded)}")
+    return pairs
+
+
+def generic_replay(path: str, gen, judge_factory) -> int:
+    """Re-execute the case stored in a replay file (regenerated from seed/tier, matched by case id)."""
+    with open(path, encoding="utf-8") as fh:
+        rp = json.load(fh)
+    cid = (rp.get("case") or {}).get("cid")
+    tier, seed = rp.get("tier", "quick"), rp.get("seed", 0)
+    cases = [c for c in gen(tier, seed) if c.cid == cid]
+    if not cases:
+        print(f"replay: case {cid!r} not found for tier={tier} seed={seed}")
+        return 2
+    chk = Check(rp["property"], tier, seed)
+    judge = judge_factory(chk)
+    recs, _mon, err = runner.run_batch(cases[:1], steps="off")
+    if err:
+        print("replay: runner error", err)
+        return 2
+    rec = recs[0]
+    print("argv:", rec["argv"], "outcome:", rec["outcome"], rec.get("exc"))
+    viols = judge(cases[0], rec) if rec["outcome"] == "ok" else []
+    for v in viols:
+        print(f"VIOLATION-DETAIL {v.rule} @ {v.where}: {json.dumps(v.detail, default=str)[:1000]}")
+    for k, t in (rec.get("tree") or {}).items():
+        if k.endswith(".sdsstub"):
+            print("-----", k)
+            print(t[:3000])
+    return 1 if viols else 0
